@@ -231,3 +231,25 @@ func H_nonString(k int) {
 	verifAssert(ok, "raw special character reaches the output of an autoescaped print")
 	verifAssert(dec == v.String(), "autoescaped output does not decode to the printed value")
 }
+
+var c03EscapeDirTofu *Tofu
+
+// H_escapeDir: the same through the explicit directive, {$x|escapeHtml}, in a template that
+// autoescapes (via 0) and in one that does not (via 1): a value that already looks like escaped
+// text ("&lt;", "&amp;amp;", "&#39;") is data like any other and decodes back to itself.
+func H_escapeDir(n, via int) {
+	s := verifString(n)
+	for i := 0; i < len(s); i++ {
+		verifAssume(s[i] != 0) // (the directive uses the standard library's escaper, which replaces NUL by U+FFFD)
+	}
+	if c03EscapeDirTofu == nil {
+		c03EscapeDirTofu = verifMustCompile("{namespace e}\n/** @param x */\n{template .t0}\n{$x|escapeHtml}\n{/template}\n/** @param x */\n{template .t1 autoescape=\"false\"}\n{$x|escapeHtml}\n{/template}\n")
+	}
+	out, err := verifRender(c03EscapeDirTofu, []string{"e.t0", "e.t1"}[via], data.Map{"x": data.String(s)})
+	verifObserve("in", s)
+	verifObserve("out", out)
+	verifAssert(err == nil, "render failed")
+	dec, ok := decodeEntities(out)
+	verifAssert(ok, "raw special character or malformed entity in escaped output")
+	verifAssert(dec == s, "escaped output does not decode to the value")
+}
